@@ -142,7 +142,7 @@ type entry struct {
 
 type drift struct{ msg string }
 
-func (d *drift) Error() string       { return d.msg }
+func (d *drift) Error() string        { return d.msg }
 func driftf(f string, a ...any) error { return &drift{fmt.Sprintf(f, a...)} }
 
 type viol struct {
@@ -184,8 +184,8 @@ type world struct {
 	calls []map[string][]*workerpb.SourceSplit
 
 	// runners: harness-owned for kinesis, real readers for the fixed kinds
-	held    map[int]string             // shard -> runner holding it
-	cursor  map[int]int                // shard -> model cursor (kinesis)
+	held    map[int]string                     // shard -> runner holding it
+	cursor  map[int]int                        // shard -> model cursor (kinesis)
 	readers map[string]connectors.SourceReader // fixed kinds
 
 	// ghost state of the property
@@ -802,6 +802,10 @@ func replay(bi int, beh []mbt.Step, in *mbt.Input, res *mbt.Result) {
 	}
 	defer w.close()
 	maxCur := in.CfgInt("MaxCur", 1)
+	// Adversarial: the behaviour was generated with a Pre_* switch on (a schedule
+	// of the unrepaired code). Its predictions are not the code's; only the
+	// property is judged, and a step the code does not offer ends the replay.
+	adversarial := in.CfgBool("Adversarial", false)
 	seenKnown := map[string]bool{}
 	report := func(si int, v viol, known string) {
 		if known != "" {
@@ -818,6 +822,12 @@ func replay(bi int, beh []mbt.Step, in *mbt.Input, res *mbt.Result) {
 	// handle the violations of one step: predicted ones are known findings,
 	// others are violations; returns false if the behaviour cannot continue
 	settle := func(si int, st mbt.Step, vs []viol, judgeLost bool) bool {
+		if adversarial {
+			for _, v := range vs {
+				report(si, v, "")
+			}
+			return len(vs) == 0
+		}
 		pb := predictedBad(st)
 		unknown := false
 		seen := map[string]bool{}
@@ -846,7 +856,12 @@ func replay(bi int, beh []mbt.Step, in *mbt.Input, res *mbt.Result) {
 		}
 		return true
 	}
+	ended := false
 	fail := func(si int, err error) {
+		if _, ok := err.(*drift); ok && adversarial {
+			ended = true
+			return
+		}
 		if d, ok := err.(*drift); ok {
 			res.Driftf("behaviour %d step %d: %s", bi, si, d.msg)
 		} else {
@@ -856,6 +871,9 @@ func replay(bi int, beh []mbt.Step, in *mbt.Input, res *mbt.Result) {
 	// compare the observed entries with the prediction; a difference that broke
 	// nothing is drift
 	sameAssign := func(si int, st mbt.Step, es []entry) bool {
+		if adversarial {
+			return true
+		}
 		norm := func(es []entry, model bool) []string {
 			var out []string
 			for _, e := range es {
@@ -885,18 +903,19 @@ func replay(bi int, beh []mbt.Step, in *mbt.Input, res *mbt.Result) {
 		return true
 	}
 	sampleOn := bi == 0
-	for si, st := range beh {
+	// doStep executes one model step; false = the behaviour ends here
+	doStep := func(si int, st mbt.Step) bool {
 		res.Steps++
 		switch st.Str("a") {
 		case "Start":
 			err, crash := w.start(st.Int("r"))
 			if err != nil {
 				fail(si, err)
-				return
+				return false
 			}
 			if crash != "" {
 				report(si, viol{"crash", 0, fmt.Sprintf("splitter Start(%s) of the %s source with %d runners: %s", ckptText(w.kSrc), kind, st.Int("r"), crash)}, "")
-				return
+				return false
 			}
 			calls := w.takeCalls()
 			if sampleOn {
@@ -904,15 +923,15 @@ func replay(bi int, beh []mbt.Step, in *mbt.Input, res *mbt.Result) {
 			}
 			es, vs := w.judge(calls)
 			if !settle(si, st, vs, false) {
-				return
+				return false
 			}
 			if !sameAssign(si, st, es) {
-				return
+				return false
 			}
 		case "Tick":
 			if err := w.tick(); err != nil {
 				fail(si, err)
-				return
+				return false
 			}
 			calls := w.takeCalls()
 			if sampleOn && len(calls) > 0 {
@@ -924,77 +943,77 @@ func replay(bi int, beh []mbt.Step, in *mbt.Input, res *mbt.Result) {
 				vs = append(vs, w.lost()...)
 			}
 			if !settle(si, st, vs, final) {
-				return
+				return false
 			}
 			if !sameAssign(si, st, es) {
-				return
+				return false
 			}
 		case "Split":
 			if err := w.split(st.Int("s")); err != nil {
 				fail(si, err)
-				return
+				return false
 			}
 		case "Merge":
 			if err := w.merge(st.Int("s"), st.Int("t")); err != nil {
 				fail(si, err)
-				return
+				return false
 			}
 		case "Progress":
 			s := st.Int("s")
 			if _, ok := w.held[s]; !ok {
 				fail(si, driftf("Progress(%d): nobody reads it", s))
-				return
+				return false
 			}
 			w.cursor[s] = st.Int("c")
 		case "RunnerRead":
 			vs, err := w.runnerRead(st.Int("r"), maxCur)
 			if err != nil {
 				fail(si, err)
-				return
+				return false
 			}
 			if !settle(si, st, vs, false) {
-				return
+				return false
 			}
 		case "Finish":
 			if rn := w.held[st.Int("s")]; rn != runnerName(st.Int("r")) {
 				fail(si, driftf("Finish(%d): model says runner %d reads it, it is %q", st.Int("s"), st.Int("r"), rn))
-				return
+				return false
 			}
 			if err := w.finish(st.Int("s")); err != nil {
 				fail(si, err)
-				return
+				return false
 			}
 		case "StartCkpt":
 			if err := w.startCkpt(); err != nil {
 				fail(si, err)
-				return
+				return false
 			}
 		case "Barrier":
 			capt, err := w.barrier(st.Int("r"))
 			if err != nil {
 				fail(si, err)
-				return
+				return false
 			}
 			want := map[int]int{}
 			for _, x := range st.List("states") {
 				m, _ := x.(map[string]any)
 				want[mbt.Step(m).Int("s")] = mbt.Step(m).Int("c")
 			}
-			if fmt.Sprint(want) != fmt.Sprint(capt) {
+			if !adversarial && fmt.Sprint(want) != fmt.Sprint(capt) {
 				fail(si, driftf("Barrier(%d): model captures %v, the runner holds %v", st.Int("r"), want, capt))
-				return
+				return false
 			}
 		case "Complete":
 			src, err := w.complete()
 			if err != nil {
 				fail(si, err)
-				return
+				return false
 			}
-			if kind == "kinesis" {
+			if kind == "kinesis" && !adversarial {
 				stt, err := splitterState(src.SplitterState)
 				if err != nil {
 					fail(si, err)
-					return
+					return false
 				}
 				var got []int
 				for _, a := range stt.AssignedShards {
@@ -1004,7 +1023,7 @@ func replay(bi int, beh []mbt.Step, in *mbt.Input, res *mbt.Result) {
 				want := st.Ints("known")
 				if fmt.Sprint(got) != fmt.Sprint(want) || w.shardOf(stt.LastAssignedShardId) != st.Int("last") {
 					res.Driftf("behaviour %d step %d: splitter checkpoint holds shards %v last %q, model %v last %d", bi, si, got, stt.LastAssignedShardId, want, st.Int("last"))
-					return
+					return false
 				}
 				if sampleOn {
 					w.obs = append(w.obs, map[string]any{"step": si, "a": "Complete", "splitterState.shards": got, "last": stt.LastAssignedShardId, "splitStates": len(src.SplitStates)})
@@ -1012,14 +1031,38 @@ func replay(bi int, beh []mbt.Step, in *mbt.Input, res *mbt.Result) {
 			}
 		default:
 			res.Errors = append(res.Errors, fmt.Sprintf("unknown action %q", st.Str("a")))
-			return
+			return false
 		}
 		if w.errChan != nil {
 			select {
 			case e := <-w.errChan:
 				res.Errors = append(res.Errors, fmt.Sprintf("behaviour %d step %d: the splitter reported an error: %v", bi, si, e))
-				return
+				return false
 			default:
+			}
+		}
+		return true
+	}
+	for si, st := range beh {
+		if !doStep(si, st) {
+			if ended {
+				break
+			}
+			return
+		}
+	}
+	if adversarial && kind == "kinesis" && w.sp != nil && w.parked != nil {
+		for i := 0; i < 3; i++ {
+			if err := w.tick(); err != nil {
+				res.Errors = append(res.Errors, fmt.Sprintf("behaviour %d final rounds: %v", bi, err))
+				return
+			}
+			_, vs := w.judge(w.takeCalls())
+			if i == 2 {
+				vs = append(vs, w.lost()...)
+			}
+			for _, v := range vs {
+				report(len(beh)-1, v, "")
 			}
 		}
 	}
